@@ -190,6 +190,25 @@ def check_theorems(prop):
     return res
 
 
+def run_coqchk(prop, timeout=2400):
+    """thorough tier: re-check Properties/<prop>.vo and everything it depends on with the
+    independent checker; returns dict(ok, axioms, summary)"""
+    rc, out = sh(["timeout", str(timeout), "coqchk", "-silent", "-o", "-Q", "theories", "Lal", "Lal.Properties.%s" % prop],
+                 cwd=COQ, timeout=timeout + 60)
+    res = dict(ok=(rc == 0), rc=rc, axioms=[], summary=out[-1500:])
+    m = re.search(r"\* Axioms:(.*?)\n\s*\n\* Constants", out, re.S)
+    if m:
+        body = m.group(1).strip()
+        if body and body != "<none>":
+            res["axioms"] = [l.strip() for l in body.split("\n") if l.strip()]
+    for key in ("type-in-type", "unsafe (co)fixpoints", "positivity is assumed"):
+        mm = re.search(re.escape(key) + r":\s*(.*)", out)
+        if mm and mm.group(1).strip() != "<none>":
+            res["ok"] = False
+            res.setdefault("unsafe", []).append(key + ": " + mm.group(1).strip())
+    return res
+
+
 # ----------------------------------------------------------------------------
 # extraction + OCaml
 
@@ -492,6 +511,21 @@ def main_check(mod, tier, seed, replay=None):
                trusted_base=trusted_base(thm), evaluations=0, distinct_nontrivial=0,
                rule=getattr(mod, "RULE", ""), samples=[], distribution={}, mismatches=0,
                oracle_evaluated=0, oracle_failed=0, known_findings_hit=[])
+
+    if tier == "thorough" and thm["failing"] is None and not os.environ.get("VERIF_NO_COQCHK"):
+        with Lock("coqchk"):
+            chk = run_coqchk(prop)
+        cov["coqchk"] = dict(ok=chk["ok"], rc=chk["rc"], axioms=chk["axioms"], unsafe=chk.get("unsafe", []))
+        cov["checker_cmd"] += " && coqchk -silent -o -Q theories Lal Lal.Properties.%s" % prop
+        if chk["axioms"]:
+            cov["trusted_base"] += ["coqchk axiom: " + a for a in chk["axioms"]]
+        else:
+            cov["trusted_base"].append("coqchk -o: no axioms, no type-in-type, no unsafe fixpoints, no assumed positivity in the whole dependency cone")
+        if not chk["ok"] and chk["rc"] != 124:
+            path = write_replay(prop, dict(property=prop, broken="coqchk rejects Properties/%s.vo or its dependencies" % prop, log=chk["summary"]))
+            violations.append(("proof", "coqchk failed", path, True))
+        elif chk["rc"] == 124:
+            notes.append("coqchk did not finish within its time limit; the coqc result stands")
 
     if ok_model and ok_probe:
         if replay:
